@@ -31,7 +31,7 @@ RootsOf(p, n) == KidsOf(p, n, 0)
 
 RawForest(p, n) ==
     LET roots == RootsOf(p, n) IN
-    [units |-> [j \in 1..Len(roots) |-> [kind |-> "cu", ver |-> 2 + ((j + n) % 4), root |-> roots[j]]],
+    [units |-> [j \in 1..Len(roots) |-> [kind |-> "cu", ver |-> 2 + ((j + n) % 4), root |-> roots[j], file |-> 0]],
      die |-> [d \in 1..n |->
                 [tag |-> IF p[d] = 0 THEN "cu" ELSE IF Len(KidsOf(p, n, d)) > 0 THEN "ns" ELSE "var",
                  kids |-> KidsOf(p, n, d),
@@ -53,7 +53,7 @@ ImpChoices(p, n) ==
            /\ \A r \in pus : \E d \in leaves : f[d] = r}                  \* every partial unit is imported
 NavForest(p, n, f) ==
     LET roots == RootsOf(p, n) IN
-    [units |-> [j \in 1..Len(roots) |-> [kind |-> IF roots[j] = 1 THEN "cu" ELSE "pu", ver |-> 4, root |-> roots[j]]],
+    [units |-> [j \in 1..Len(roots) |-> [kind |-> IF roots[j] = 1 THEN "cu" ELSE "pu", ver |-> 4, root |-> roots[j], file |-> 0]],
      die |-> [d \in 1..n |->
                 [tag |-> IF d = 1 THEN "cu" ELSE IF p[d] = 0 THEN "pu"
                          ELSE IF d \in DOMAIN f /\ f[d] # 0 THEN "imp"
@@ -75,7 +75,7 @@ RefChoices(n) ==
         \* the first DIE shows what it integrates: it has at most a line of its own
         /\ g[2].m \in {1, 3}}
 AttrForest(n, g) ==
-    [units |-> <<[kind |-> "cu", ver |-> 4, root |-> 1]>>,
+    [units |-> <<[kind |-> "cu", ver |-> 4, root |-> 1, file |-> 0]>>,
      die |-> [d \in 1..n |->
                 IF d = 1 THEN [tag |-> "cu", kids |-> [i \in 1..(n - 1) |-> i + 1], attrs |-> <<A("name", "string", 0)>>, hc |-> TRUE]
                 ELSE LET sp == IF g[d].spec # 0 THEN <<A("spec", "ref4", g[d].spec)>> ELSE <<>>
@@ -85,8 +85,41 @@ AttrForest(n, g) ==
                          own == IF d = n /\ g[d].m = 4 THEN AttrMenu[2] ELSE AttrMenu[g[d].m]
                      IN [tag |-> "sub", kids |-> <<>>, attrs |-> refs \o own, hc |-> FALSE]]]
 
+\* The same with a dwz alt file (.gnu_debugaltlink): the units marked file = 1 are stored in a second ELF file,
+\* references into it use DW_FORM_GNU_ref_alt, and its offsets start again from 0 -- the DIEs of the two files
+\* sit at colliding offsets.  The raw view lists the units of the alt file after those of the main file.
+\* "altnav": the partial units of a navigation forest live in the alt file.
+AltNavForest(p, n, f) ==
+    LET F == NavForest(p, n, f) IN
+    [F EXCEPT !.units = [j \in 1..Len(F.units) |-> [F.units[j] EXCEPT !.file = IF F.units[j].kind = "pu" THEN 1 ELSE 0]]]
+\* "altattr": DIEs 2..s are children of the compile unit (DIE 1), DIE s+1 is the root of a partial unit in the alt
+\* file with the children s+2..n; specification / abstract_origin point to later DIEs, also across the files
+AltAttrForest(n, g, s) ==
+    LET F == AttrForest(n, g) IN
+    [units |-> <<[kind |-> "cu", ver |-> 4, root |-> 1, file |-> 0], [kind |-> "pu", ver |-> 4, root |-> s + 1, file |-> 1]>>,
+     die |-> [d \in 1..n |->
+                IF d = 1 THEN [F.die[1] EXCEPT !.kids = [i \in 1..(s - 1) |-> i + 1]]
+                ELSE IF d = s + 1 THEN [tag |-> "pu", kids |-> [i \in 1..(n - s - 1) |-> s + 1 + i], attrs |-> <<A("name", "string", 0)>>, hc |-> TRUE]
+                ELSE \* a sibling attribute must stay within the DIE's own unit: replace that menu entry
+                     [F.die[d] EXCEPT !.attrs = SelectSeq(@, LAMBDA a: a.n # "sibling")]]]
+\* built up per DIE (filtering RefChoices would enumerate 10^13 functions): the alt root refers to nothing and
+\* nothing refers to it; menus 1..3
+AltLater(d, n, s) == {x \in (d + 1)..n : x # s + 1}
+AltOne(d, n, s) ==
+    IF d = s + 1 THEN {[spec |-> 0, orig |-> 0, first |-> "spec", m |-> 2]}
+    ELSE {r \in [spec: {0} \cup AltLater(d, n, s), orig: {0} \cup AltLater(d, n, s), first: {"spec", "orig"}, m: 1..3] :
+             /\ (r.spec = 0 \/ r.orig = 0) => r.first = "spec"
+             /\ d = 2 => r.m \in {1, 3}}
+RECURSIVE AltProd(_, _, _)
+AltProd(d, n, s) == IF d > n THEN {<<>>} ELSE {<<r>> \o rest : r \in AltOne(d, n, s), rest \in AltProd(d + 1, n, s)}
+AltRefChoices(n, s) ==
+    {g \in {[d \in 2..n |-> sq[d - 1]] : sq \in AltProd(2, n, s)} :
+        \E d \in 2..s : g[d].spec > s \/ g[d].orig > s}            \* some reference crosses into the alt file
+
 ForestSet ==
-    CASE Family = "raw" -> {RawForest(p, N) : p \in ParVecs(N)}
+    CASE Family = "altnav" -> UNION {{AltNavForest(p, N, f) : f \in ImpChoices(p, N)} : p \in {q \in ParVecs(N) : Cardinality(RangeOf(RootsOf(q, N))) \in 2..3}}
+      [] Family = "altattr" -> UNION {{AltAttrForest(N, g, s) : g \in AltRefChoices(N, s)} : s \in 2..(N - 2)}
+      [] Family = "raw" -> {RawForest(p, N) : p \in ParVecs(N)}
       [] Family = "nav" -> UNION {{NavForest(p, N, f) : f \in ImpChoices(p, N)} : p \in {q \in ParVecs(N) : Cardinality(RangeOf(RootsOf(q, N))) \in 2..3}}
       [] Family = "attr" -> {AttrForest(N, g) : g \in RefChoices(N)}
 
